@@ -18,6 +18,8 @@ import (
 	sdkvesting "github.com/cosmos/cosmos-sdk/x/auth/vesting/types"
 	ibcante "github.com/cosmos/ibc-go/v7/modules/core/ante"
 	ibckeeper "github.com/cosmos/ibc-go/v7/modules/core/keeper"
+
+	oracletypes "github.com/settlus/chain/x/oracle/types"
 )
 
 // HandlerOptions defines the list of module keepers required to run the Settlus
@@ -96,6 +98,10 @@ func newCosmosAnteHandler(options HandlerOptions) sdk.AnteHandler {
 		cosmosante.NewAuthzLimiterDecorator( // disable the Msg types that cannot be included on an authz.MsgExec msgs field
 			sdk.MsgTypeURL(&evmtypes.MsgEthereumTx{}),
 			sdk.MsgTypeURL(&sdkvesting.MsgCreateVestingAccount{}), // Settlus do not support vesting accounts
+			// oracle messages must pass the feeder check of the settlus ante handler: never inside authz
+			sdk.MsgTypeURL(&oracletypes.MsgPrevote{}),
+			sdk.MsgTypeURL(&oracletypes.MsgVote{}),
+			sdk.MsgTypeURL(&oracletypes.MsgFeederDelegationConsent{}),
 		),
 		ante.NewSetUpContextDecorator(),
 		ante.NewExtensionOptionsDecorator(options.ExtensionOptionChecker),
